@@ -449,7 +449,8 @@ func rulesC20(c *Ctx) {
 					okE = true
 				}
 				for _, ev := range resultN(call, idx) {
-					if facts.KnownNil(r.Block(), ev, false) && (rv == ev || sameValue(rv, ev)) {
+					// the error itself, or an error built on its failing edge (a wrapper naming the file)
+					if facts.KnownNil(r.Block(), ev, false) && (rv == ev || sameValue(rv, ev) || isNonNilErrValue(rv, 0)) {
 						okE = true
 					}
 				}
